@@ -5,4 +5,4 @@
 From Coq Require Extraction ExtrOcamlBasic.
 From SA Require Import Model.
 Extraction Language OCaml.
-Extraction "model.ml" run binop_name prim_ty_name cmpop_name logicop_name err_kind_name.
+Extraction "model.ml" run binop_name prim_ty_name cmpop_name logicop_name err_kind_name all_err_kind.
